@@ -1,9 +1,11 @@
 (* Properties/C11.v — A Conn stays usable after broker-reported errors and is never reused
    misaligned.  Only statements; every proof is [exact <lemma>].
    Model: Model/Legacy.v (read.go / discard.go) + Model/ConnOps.v (per-operation response
-   readers, waitResponse, Conn.do, Batch.close).  [conn_do st o s] = one operation on a
-   connection whose peer will deliver the bytes s; it returns the new state, the result and
-   the bytes not consumed. *)
+   readers, waitResponse, Conn.do, ReadBatchWith + Batch.close).  [conn_do st o s] = one
+   operation on a connection whose peer will deliver the bytes s; it returns the new state, the
+   result and the bytes not consumed.  [negotiated a v]: v is a version Conn can use for API a;
+   [well_formed a v w]: w is a value of the response grammar of (a, v) (reference encoder [enc])
+   answering the one topic / partition the Conn asks for. *)
 From Coq Require Import List NArith ZArith Bool.
 From KV Require Import Lib.Bits Lib.Bytes Model.Legacy Model.ConnOps.
 From KV Require Import Proofs.ConnOpsBase Proofs.ConnOpsCodec Proofs.ConnOpsProofs Proofs.ConnOpsWitness
@@ -11,111 +13,55 @@ From KV Require Import Proofs.ConnOpsBase Proofs.ConnOpsCodec Proofs.ConnOpsProo
 Import ListNotations.
 Open Scope Z_scope.
 
-(* ---- the full statement (every operation, version, well-formed response, error field,
-   error code): REFUTED on the current code for produce and fetch (defect F2), see below ---- *)
-Definition C11_aligned_after_kafka_error_full_statement : Prop :=
-  forall a v w st off code rest st' s',
-    well_formed a v w -> fits (enc (resp_ty a v) w) -> closed st = false ->
-    conn_do st (mkOp a v off) (frame (wrap32 (corr st + 1)) (enc (resp_ty a v) w) ++ rest)
-      = (st', RErr (EKafka code), s') ->
-    s' = rest /\ closed st' = false.
-
-(* proved for EVERY operation of Conn except produce and fetch, every version, error field and
-   code: the operations that read their whole response and only then look at error codes
-   (metadata v1/v6, brokers, controller, find-coordinator, join/sync/heartbeat/leave,
-   offset-commit/fetch, list-groups, create/delete-topics, sasl handshake/authenticate:
-   [schema_api]), list-offsets v1 and ApiVersions v0.  Missing for the full statement: produce
-   and fetch, which are refuted below. *)
-Theorem C11_aligned_after_kafka_error_partial : forall a v w st off code rest st' s',
-  (schema_api a = true \/ (a = AListOffsets /\ v = 1%N) \/ (a = AApiVersions /\ v = 0%N)) ->
+(* ---- every operation (produce, fetch = ReadBatch+Close, list-offsets, metadata, the group
+   APIs, create/delete topics, ApiVersions, SASL), every negotiated version, every well-formed
+   response carrying any error code in any of its error fields, whatever follows in the stream:
+   if the result is a Kafka error, the reader sits exactly behind the frame and the Conn is
+   kept ---- *)
+Theorem C11_aligned_after_kafka_error : forall a v w st off code rest st' s',
+  negotiated a v = true ->
   well_formed a v w -> fits (enc (resp_ty a v) w) -> closed st = false ->
   conn_do st (mkOp a v off) (frame (wrap32 (corr st + 1)) (enc (resp_ty a v) w) ++ rest)
     = (st', RErr (EKafka code), s') ->
   s' = rest /\ closed st' = false.
-Proof. intros a v w st off code rest st' s' H. exact (aligned_all_but_produce_fetch a v H w st off code rest st' s'). Qed.
-Print Assumptions C11_aligned_after_kafka_error_partial.
+Proof. exact aligned_full. Qed.
+Print Assumptions C11_aligned_after_kafka_error.
 
-(* produce, every version, EVERY well-formed response carrying a partition error code: the
-   4-byte throttle field is left in the stream (the general form of F2 for produce) *)
-Theorem C11_produce_error_always_misaligned : forall v w st off code rest st' s',
-  well_formed AProduce v w -> fits (enc (resp_ty AProduce v) w) -> closed st = false ->
-  conn_do st (mkOp AProduce v off) (frame (wrap32 (corr st + 1)) (enc (resp_ty AProduce v) w) ++ rest)
+(* equivalently: the next operation runs exactly as on a connection that was never used for
+   the first exchange (open, same counters, fed the rest of the stream) *)
+Theorem C11_next_as_fresh : forall a v w st off code rest st' s' o2,
+  negotiated a v = true ->
+  well_formed a v w -> fits (enc (resp_ty a v) w) -> closed st = false ->
+  conn_do st (mkOp a v off) (frame (wrap32 (corr st + 1)) (enc (resp_ty a v) w) ++ rest)
     = (st', RErr (EKafka code), s') ->
-  exists thr, s' = put_bes 4 thr ++ rest /\ closed st' = false.
-Proof. exact produce_error_never_aligned. Qed.
-Print Assumptions C11_produce_error_always_misaligned.
+  conn_do st' o2 s' = conn_do (mkConn false (wrap32 (corr st + 1)) (cfg_topic st) (offset st')) o2 rest.
+Proof. exact next_as_fresh. Qed.
+Print Assumptions C11_next_as_fresh.
 
-(* produce and list-offsets on a well-formed response never fail otherwise: success (frame
-   consumed) or the Kafka error *)
-Theorem C11_produce_total : forall st v off name part thr rest,
-  wt TStr name -> wt (t_produce_part v) part ->
-  let body := enc (resp_ty AProduce v) (w_produce name part thr) in
-  let id := wrap32 (corr st + 1) in
-  fits body -> closed st = false ->
-  (exists x, conn_do st (mkOp AProduce v off) (frame id body ++ rest)
-             = (mkConn false id (cfg_topic st) (offset st), ROk x, rest)) \/
-  (exists c, conn_do st (mkOp AProduce v off) (frame id body ++ rest)
-             = (mkConn false id (cfg_topic st) (offset st), RErr (EKafka c), put_bes 4 thr ++ rest)).
-Proof. exact conn_do_produce_frame. Qed.
-Print Assumptions C11_produce_total.
-
-(* the same without any assumption on the incoming bytes: success or a Kafka error of such an
-   operation means it consumed exactly the frame announced by the size prefix *)
+(* the same for ANY incoming bytes (no well-formedness): success of any operation but
+   ApiVersions, or a Kafka error of any operation but ApiVersions / list-offsets, means that
+   exactly the frame announced by the size prefix was consumed.  For fetch this says what
+   ReadBatch + Close consume: the header, and then the whole message set (skipped after a
+   broker error, discarded when highWaterMark = offset, discarded by Batch.close otherwise). *)
 Theorem C11_frame_exact : forall st o s st' r s',
-  closed st = false -> op_api o <> AFetch -> op_api o <> AApiVersions ->
+  closed st = false -> op_api o <> AApiVersions ->
   conn_do st o s = (st', r, s') ->
   match r with
   | ROk _ => True
-  | RErr (EKafka _) => schema_api (op_api o) = true
+  | RErr (EKafka _) => op_api o <> AListOffsets
   | _ => False
   end ->
   consumed_frame s s' /\ closed st' = false.
 Proof. exact frame_exact. Qed.
 Print Assumptions C11_frame_exact.
 
-(* after a Kafka error the next operation runs exactly as on a connection that was never
-   used for the first exchange (same counters, open, positioned at the next frame) *)
-Theorem C11_next_as_fresh : forall st o s st' code s' o2,
-  closed st = false -> schema_api (op_api o) = true ->
-  conn_do st o s = (st', RErr (EKafka code), s') ->
-  consumed_frame s s' /\
-  conn_do st' o2 s' = conn_do (mkConn false (corr st') (cfg_topic st) (offset st')) o2 s'.
-Proof. exact next_as_fresh. Qed.
-Print Assumptions C11_next_as_fresh.
-
-(* refutations (F2): concrete well-formed responses after which the stream is misaligned *)
-Theorem C11_aligned_refuted_produce :
-  ~ aligned_statement AProduce 2 /\ ~ aligned_statement AProduce 3 /\ ~ aligned_statement AProduce 7.
-Proof. exact (conj refuted_produce_v2 (conj refuted_produce_v3 refuted_produce_v7)). Qed.
-Print Assumptions C11_aligned_refuted_produce.
-
-Theorem C11_aligned_refuted_fetch_partition :
-  ~ aligned_statement AFetch 5 /\ ~ aligned_statement AFetch 10 /\ ~ aligned_statement AFetch 2.
-Proof. exact (conj refuted_fetch_partition_v5 (conj refuted_fetch_partition_v10 refuted_fetch_partition_v2)). Qed.
-Print Assumptions C11_aligned_refuted_fetch_partition.
-
-Theorem C11_aligned_refuted_fetch_toplevel : ~ aligned_statement AFetch 10.
-Proof. exact refuted_fetch_toplevel_v10. Qed.
-Print Assumptions C11_aligned_refuted_fetch_toplevel.
-
-Theorem C11_full_statement_refuted : ~ C11_aligned_after_kafka_error_full_statement.
-Proof. exact (fun H => refuted_produce_v2 (H AProduce 2%N)). Qed.
-Print Assumptions C11_full_statement_refuted.
-
-(* what the next operation returns after the produce witness: io.ErrNoProgress, Conn kept *)
-Theorem C11_refuted_next_operation :
-  conn_run (fresh [116%N]) [mkOp AProduce 2 0; hb]
-    (frame 1 (enc (resp_ty AProduce 2) w_produce_v2) ++ hb_frame 2)
-  = (mkConn false 2 [116%N] (-1), [RErr (EKafka 6); RErr ENoProgress], [0;0;0;0]%N ++ hb_frame 2).
-Proof. exact produce_then_next_noprogress. Qed.
-Print Assumptions C11_refuted_next_operation.
-
 (* ---- a framing / transport error closes the Conn and every later operation fails ---- *)
-(* exceptions, both visible in the statement: io.ErrNoProgress (waitResponse returns it without
-   closing) and ApiVersions (does not go through Conn.do) *)
+(* the one exception, visible in the statement: io.ErrNoProgress (waitResponse returns it
+   without closing; with aligned streams and a single goroutine it needs a broker that answers
+   with a foreign correlation id) *)
 Theorem C11_closed_after_other_error : forall st o s st' e s',
   conn_do st o s = (st', RErr e, s') ->
-  is_kafka e = false -> e <> ENoProgress -> op_api o <> AApiVersions ->
+  is_kafka e = false -> e <> ENoProgress ->
   closed st' = true.
 Proof. exact closed_after_other_error. Qed.
 Print Assumptions C11_closed_after_other_error.
@@ -126,57 +72,87 @@ Theorem C11_closed_every_later_fails : forall st ops s,
 Proof. exact closed_run. Qed.
 Print Assumptions C11_closed_every_later_fails.
 
-(* ---- no byte of one response is interpreted as part of another ---- *)
-Definition C11_no_cross_interpretation_full_statement : Prop :=
-  forall ops st s st' rs s',
-    closed st = false -> conn_run st ops s = (st', rs, s') ->
-    Forall (fun r => match r with ROk _ | RErr (EKafka _) => True | _ => False end) rs ->
-    frames_consumed s (length ops) s'.
+(* ---- no byte of one response is interpreted as part of another: over ANY sequence of
+   operations answered by well-formed frames (any error codes, any values), after the run
+   either the Conn has closed itself (and consumes nothing more, see above), or exactly the
+   frames of the operations performed have been consumed — each operation read its own frame —
+   and every result was a success or a Kafka error.  ([script_stream c l] = the frames of l
+   with the correlation ids the Conn will use; the statement holds for every prefix.) ---- *)
+Theorem C11_no_cross_interpretation : forall l st rest st' rs s',
+  closed st = false -> script_ok l ->
+  conn_run st (map fst l) (script_stream (corr st) l ++ rest) = (st', rs, s') ->
+  closed st' = true \/ (s' = rest /\ closed st' = false /\ Forall done_result rs).
+Proof. exact run_aligned. Qed.
+Print Assumptions C11_no_cross_interpretation.
 
-(* proved for runs whose outcomes are successes of any operation but fetch / ApiVersions, or
-   Kafka errors of the read-everything-first operations; missing: Kafka errors of produce,
-   fetch, list-offsets (F2), fetch successes (hwm = offset with a non-empty message set leaves
-   the set unread) *)
-Theorem C11_no_cross_interpretation_partial : forall ops st s st' rs s',
-  closed st = false ->
-  conn_run st ops s = (st', rs, s') ->
-  Forall2 clean_outcome ops rs ->
-  frames_consumed s (length ops) s' /\ closed st' = false.
-Proof. exact run_frames_exact. Qed.
-Print Assumptions C11_no_cross_interpretation_partial.
+(* one step of it: on a well-formed frame an operation either is done (success / Kafka error)
+   with the reader exactly behind its frame and the Conn open, or fails otherwise with the
+   Conn closed *)
+Theorem C11_step : forall st a v off w rest st' r s',
+  negotiated a v = true -> well_formed a v w -> fits (enc (resp_ty a v) w) -> closed st = false ->
+  conn_do st (mkOp a v off) (frame (wrap32 (corr st + 1)) (enc (resp_ty a v) w) ++ rest) = (st', r, s') ->
+  corr st' = wrap32 (corr st + 1) /\
+  ((done_result r /\ s' = rest /\ closed st' = false) \/
+   (exists e, r = RErr e /\ is_kafka e = false /\ closed st' = true)).
+Proof. exact wf_step. Qed.
+Print Assumptions C11_step.
 
-(* the full statement fails: after the produce witness (throttle 6) ErrNoProgress does not close
-   the Conn and the fifth heartbeat "succeeds" on bytes of a foreign frame header *)
-Theorem C11_no_cross_interpretation_refuted :
-  exists st s,
-    conn_run (fresh [116%N]) [mkOp AProduce 2 0; hb; hb; hb; hb; hb]
-      (frame 1 (enc (resp_ty AProduce 2) w_produce_v2_thr6)
-       ++ hb_frame 2 ++ hb_frame 3 ++ hb_frame 4 ++ hb_frame 5 ++ hb_frame 6)
-    = (st, [RErr (EKafka 6); RErr ENoProgress; RErr ENoProgress; RErr ENoProgress;
-            RErr ENoProgress; ROk (VZ 0)], s) /\ closed st = false.
-Proof. exact cross_interpretation_witness. Qed.
-Print Assumptions C11_no_cross_interpretation_refuted.
+(* ---- regression instances: the responses that left the stream misaligned before the fixes
+   (defect F2 and the highWaterMark = offset case) ---- *)
+Theorem C11_regression_produce :
+  then_next_ok AProduce 2 0 w_produce_v2 6 /\ then_next_ok AProduce 3 0 w_produce_v2 6 /\
+  then_next_ok AProduce 7 0 w_produce_v7 6.
+Proof. exact (conj produce_v2_then_next_ok (conj produce_v3_then_next_ok produce_v7_then_next_ok)). Qed.
+Print Assumptions C11_regression_produce.
+
+Theorem C11_regression_fetch :
+  then_next_ok AFetch 5 3 w_fetch_v5 1 /\ then_next_ok AFetch 10 3 w_fetch_v10_part 1 /\
+  then_next_ok AFetch 10 3 w_fetch_v10_top 6 /\ then_next_ok AFetch 2 3 w_fetch_v2 1.
+Proof.
+  exact (conj fetch_v5_partition_then_next_ok (conj fetch_v10_partition_then_next_ok
+         (conj fetch_v10_toplevel_then_next_ok fetch_v2_partition_then_next_ok))).
+Qed.
+Print Assumptions C11_regression_fetch.
+
+Theorem C11_regression_fetch_hwm_eq_offset :
+  conn_run (fresh [116%N]) [mkOp AFetch 2 100; hb]
+    (frame 1 (enc (resp_ty AFetch 2) w_fetch_ok_v2) ++ hb_frame 2)
+  = (mkConn false 2 [116%N] 100, [ROk (VL [VZ 0; VZ 100]); ROk (VZ 0)], []).
+Proof. exact fetch_hwm_eq_offset_then_next_ok. Qed.
+Print Assumptions C11_regression_fetch_hwm_eq_offset.
+
+Theorem C11_regression_former_cross_interpretation :
+  conn_run (fresh [116%N]) [mkOp AProduce 2 0; hb; hb; hb; hb; hb]
+    (frame 1 (enc (resp_ty AProduce 2) w_produce_v2_thr6)
+     ++ hb_frame 2 ++ hb_frame 3 ++ hb_frame 4 ++ hb_frame 5 ++ hb_frame 6)
+  = (mkConn false 6 [116%N] (-1),
+     [RErr (EKafka 6); ROk (VZ 0); ROk (VZ 0); ROk (VZ 0); ROk (VZ 0); ROk (VZ 0)], []).
+Proof. exact former_cross_interpretation_ok. Qed.
+Print Assumptions C11_regression_former_cross_interpretation.
 
 (* ---- non-vacuity: the hypotheses are met by concrete non-trivial instances ---- *)
+Example C11_nonvacuous_witnesses_well_formed :
+  negotiated AProduce 7 = true /\ well_formed AProduce 7 w_produce_v7 /\
+  negotiated AFetch 10 = true /\ well_formed AFetch 10 w_fetch_v10_top /\
+  well_formed AFetch 5 w_fetch_v5 /\ well_formed AFetch 2 w_fetch_v2.
+Proof.
+  split; [reflexivity|]. split; [wf_solve|]. split; [reflexivity|].
+  split; [wf_solve|]. split; wf_solve.
+Qed.
+
 Definition w_joingroup_err : wval :=
   WP (WZ 100) (WP (WZ 27) (WP (WZ 3) (WP (WS (Some [114%N])) (WP (WS (Some [108%N])) (WP (WS None)
      (WL (Some [WP (WS (Some [109%N])) (WS (Some [1%N; 2%N]))]))))))).
 #[local] Hint Unfold w_joingroup_err : wvals.
-Example C11_nonvacuous_joingroup_kafka_error :
-  well_formed AJoinGroup 2 w_joingroup_err /\
-  conn_run (fresh [116%N]) [mkOp AJoinGroup 2 0; hb]
-    (frame 1 (enc (resp_ty AJoinGroup 2) w_joingroup_err) ++ hb_frame 2)
-  = (mkConn false 2 [116%N] (-1), [RErr (EKafka 27); ROk (VZ 0)], []).
-Proof. split; [wf_solve|vm_compute; reflexivity]. Qed.
-
-Example C11_nonvacuous_produce_ok :
-  well_formed AProduce 2 w_produce_v2 /\
-  exists w, well_formed AProduce 7 w /\
-    conn_run (fresh [116%N]) [mkOp AProduce 7 0; hb]
-      (frame 1 (enc (resp_ty AProduce 7) w) ++ hb_frame 2)
-    = (mkConn false 2 [116%N] (-1), [ROk (VL [VZ 0; VZ 5; VZ 7]); ROk (VZ 0)], []).
+Example C11_nonvacuous_script :
+  script_ok [(mkOp AJoinGroup 2 0, w_joingroup_err); (mkOp AProduce 2 0, w_produce_v2);
+             (mkOp AHeartbeat 0 0, WZ 0)] /\
+  conn_run (fresh [116%N]) [mkOp AJoinGroup 2 0; mkOp AProduce 2 0; hb]
+    (script_stream 0 [(mkOp AJoinGroup 2 0, w_joingroup_err); (mkOp AProduce 2 0, w_produce_v2);
+                      (mkOp AHeartbeat 0 0, WZ 0)] ++ [7%N])
+  = (mkConn false 3 [116%N] (-1), [RErr (EKafka 27); RErr (EKafka 6); ROk (VZ 0)], [7%N]).
 Proof.
-  split; [wf_solve|].
-  exists (WP (one_tp (WP (WZ 0) (WP (WZ 0) (WP (WZ 5) (WP (WZ 7) (WZ 0)))))) (WZ 0)).
-  split; [wf_solve|vm_compute; reflexivity].
+  split; [|vm_compute; reflexivity].
+  repeat (apply Forall_cons || apply Forall_nil); cbn [fst snd op_api op_ver];
+    (split; [reflexivity|split; [wf_solve|vm_compute; reflexivity]]).
 Qed.
